@@ -5,8 +5,9 @@ OBLIGATIONS = [
   Ob('C11.name_rt', H, 'h_name_rt', tier='quick', unwind=10, defines=dict(D, MAXLEN=6), max_alloc=16,
      bound='name of symbolic length 0..6 with arbitrary bytes (small-string storage), one trailing byte',
      covers='MetadataEncoder::EncodeString, MetadataDecoder::DecodeName, std::string (libstdc++ templates instantiated in the TU)'),
-  Ob('C11.entry_rt', H, 'h_entry_rt', tier='quick', unwind=8, defines=dict(D, MAXLEN=2, MAXVAL=2), max_alloc=96,
-     bound='one entry: name of 0..2 arbitrary bytes, binary value of 0..2 bytes, through the real Metadata object (std::map with the unbalanced-BST model of _Rb_tree_insert_and_rebalance)',
-     covers='Metadata::AddEntryBinary/GetEntryBinary, MetadataEncoder::EncodeMetadata/EncodeString, MetadataDecoder::DecodeMetadata/DecodeEntry/DecodeName'),
+  Ob('C11.entry_framing', H, 'h_entry_framing', tier='quick', unwind=10, diff=False, defines=dict(D, MAXLEN=3, MAXVAL=3), max_alloc=16,
+     stubs={'_ZN5draco8Metadata14AddEntryBinaryERKNSt7__cxx1112basic_stringIcSt11char_traitsIcESaIcEEERKSt6vectorIhSaIhEE': 'noop'},
+     bound='name of 0..3 arbitrary bytes, value of 0..3 arbitrary bytes, one trailing byte; Metadata::AddEntryBinary cut',
+     covers='MetadataDecoder::DecodeEntry/DecodeName against the entry framing of MetadataEncoder::EncodeMetadata (EncodeString, EncodeVarint, EncoderBuffer::Encode)'),
 ]
 META = {}
